@@ -681,6 +681,7 @@ class Ctx:
         self.assumptions = []
         self.observed = {}        # label -> python values the harness wants to expose (samples)
         self.unknown_branch = 0
+        self.tags = {}
         self._varcache = {}
         self.query_log = cfg.get("query_log")   # list to collect smt2 of obligations (thorough)
 
@@ -1071,6 +1072,7 @@ class Ctx:
             if not any(fnmatch.fnmatch(label, p) for p in kf.get("labels", ["*"])):
                 continue
             env = dict(model_inputs)
+            env.update(self.tags)
             try:
                 ok = bool(eval(kf["region"], {"__builtins__": {}}, env))
             except Exception as e:  # region mentions an input this path does not have
@@ -1084,6 +1086,7 @@ class Ctx:
         for name in self.order:
             kind, var = self.inputs[name]
             env[name] = {"int": SymInt, "real": SymReal, "bool": SymBool}[kind](var)
+        env.update(self.tags)
         r = eval(kf["region"], {"__builtins__": {}}, env)
         if isinstance(r, SymBool):
             return r.t
@@ -1191,6 +1194,10 @@ class Ctx:
 
     def observe(self, key, value):
         self.observed[key] = value
+
+    def tag(self, name, value):
+        """a concrete, derived fact about this path's input that known-finding regions may refer to"""
+        self.tags[name] = value
 
     def cover(self, label):
         """mark a point of the harness as reached on this path (reachability witness)"""
